@@ -11,7 +11,7 @@
    envelope of input i whose pointer lands on an inscribed sat of a LATER input j > i is classified
    before the old inscription of input j has been recorded and gets no Reinscription charm.  Changing this
    would renumber inscriptions (protocol level): recorded, not repaired. *)
-From OrdV Require Import Base.Prelude Generated Index.Inscr Proofs.Inscr_tables Proofs.Inscr_proofs Proofs.Inscr_c06.
+From OrdV Require Import Base.Prelude Generated Index.Inscr Proofs.Inscr_tables Proofs.Inscr_proofs Proofs.Inscr_c06 Proofs.Inscr_c04 Proofs.Inscr_satinv Proofs.Inscr_c06b.
 
 (* the sat (offset) of the new inscription at position i of the floating list already carries an inscription *)
 Definition carried_before (F : list flotsam) (i : nat) (o : N) : Prop :=
@@ -63,6 +63,42 @@ Proof.
     exists 1%nat. eexists. split; [lia|]. split; [reflexivity|]. split; [reflexivity|]. left. reflexivity.
 Qed.
 
+(* (a) at the level the property is worded (sats), sat index on.  [b] is the indexer state right before the reveal
+   transaction t; it satisfies the sat invariant of C03 (EntInv / KeyU: every listed inscription sits on its
+   sat - a theorem for every reachable state of a valid chain, C03_location_is_sat_location).  ASSUMED from
+   C02: the sat ranges of the outputs t spends are pairwise disjoint (Disj).  Then: if the sat n that
+   calculate_sat gives the new inscription f already carries an inscription - an old one held by an input of t,
+   or a new one revealed earlier in t - then f is flagged as a reinscription, unless f is in the recorded class
+   (an old inscription of a LATER input sits on the offset f's pointer selects). *)
+Theorem C06_sat_level_except : forall cfg h t b ents U1 st' F tiv i f n,
+  c_sats cfg = true ->
+  EntInv (s_entries (b_st b)) (s_utxo (b_st b)) [] -> KeyU (s_entries (b_st b)) (s_utxo (b_st b)) ->
+  tx_plain t -> ins_real t ->
+  take_inputs (t_ins t) (s_utxo (b_st b)) = Ok (ents, U1) ->
+  Disj (concat (map u_ranges ents)) ->
+  s_entries st' = s_entries (b_st b) ->
+  floating_of cfg st' h t ents = Ok (F, tiv) ->
+  nth_error F i = Some f -> is_new f = true ->
+  calc_sat_in (concat (map u_ranges ents)) 0 (f_offset f) = Ok n ->
+  ((exists j g seq e, nth_error F j = Some g /\ f_origin g = OOld seq /\
+      tget N.eqb seq (s_entries (b_st b)) = Some e /\ i_sat e = Some n) \/
+   (exists j g, (j < i)%nat /\ nth_error F j = Some g /\ is_new g = true /\
+      calc_sat_in (concat (map u_ranges ents)) 0 (f_offset g) = Ok n)) ->
+  ~ Known_fwd_pointer F i f -> f_reinscr f = true.
+Proof.
+  intros cfg h t b ents U1 st' F tiv i f n HS HE HK HP HR ET HD HEq EF Hi Hn Hsat Hcar Hk.
+  apply (C06_except cfg st' h t ents F tiv i f EF Hi Hn Hk).
+  pose proof (floating_flinv cfg h t b ents U1 st' F tiv HS HE HK HP HR ET HEq EF) as FL.
+  destruct Hcar as [(j & g & seq & e & G1 & G2 & G3 & G4)|(j & g & J1 & G1 & G2 & G3)].
+  - exists j, g. assert (Hg : In g F) by (eapply nth_error_In; eauto).
+    destruct (FL g seq Hg G2) as [_ SA]. specialize (SA e n G3 G4).
+    split; [|split; [exact G1|split]].
+    + intro. subst j. rewrite Hi in G1. inv G1. unfold is_new in Hn. rewrite G2 in Hn. discriminate.
+    + eapply calc_inj; eauto.
+    + left. unfold is_new. rewrite G2. reflexivity.
+  - exists j, g. split; [lia|]. split; [exact G1|]. split; [eapply calc_inj; eauto|]. right. exact J1.
+Qed.
+
 (* the Reinscription / Cursed / Vindicated charms and the sign of the number are the flags *)
 Theorem C06_charms_are_flags : forall h rg f sp o b b' c fee hid ps re ub vi,
   f_origin f = ONew c fee hid ps re ub vi ->
@@ -96,3 +132,4 @@ Print Assumptions C06_except.
 Print Assumptions C06_known_refuted.
 Print Assumptions C06_charms_are_flags.
 Print Assumptions C06_clean_first_blessed.
+Print Assumptions C06_sat_level_except.
